@@ -70,6 +70,9 @@ def cases(tier, seed):
             for tol in tols:
                 for pr in range(0, n + 1):
                     out.append({"key": f"cgne/{m}x{n}/c={c:g}/tol={tol:g}/pr={pr}", "ep": "cgne", "m": m, "n": n, "cond": c, "tol": tol, "pr": pr})
+    for c in out:
+        c["S"] = 4 if tier == "quick" else 12
+        c["MAXIT"] = 200 if tier == "quick" else 600
     return out
 
 
@@ -95,8 +98,8 @@ def run_case(case, seed):
     Aplus = O.pinv(A)
     nAp2 = 1.0 / min(vals)
     condA = max(vals) / min(vals)
-    S = 4
-    MAXIT = 200
+    S = case.get("S", 4)
+    MAXIT = case.get("MAXIT", 200)
     fails = []
     evals = 0
     nconv = 0
